@@ -21,6 +21,19 @@ SetRowOf(m, i, r)    == [m EXCEPT ![i] = r]
 Reversed(m)          == [i \in 1..Len(m) |-> m[Len(m) + 1 - i]]
 Bump(m, K)           == [i \in 1..Len(m) |-> [j \in 1..Len(m[i]) |-> (m[i][j] + 1) % K]]
 
+\* Iteration from both ends (DoubleEndedIterator): `pat` is a sequence of "f" (next) / "b" (next_back) requests on ONE
+\* iterator; each request yields the next row from that end while rows remain between the two cursors and nothing
+\* (<<>>) afterwards; every row is yielded at most once.  Returns the yields and the iterator's remaining length.
+RECURSIVE EndsWalk(_, _, _, _, _)
+EndsWalk(m, pat, k, f, b) ==
+  IF k > Len(pat) THEN [y |-> <<>>, n |-> b - f]
+  ELSE IF f < b
+       THEN IF pat[k] = "f"
+            THEN LET r == EndsWalk(m, pat, k + 1, f + 1, b) IN [y |-> <<m[f + 1]>> \o r.y, n |-> r.n]
+            ELSE LET r == EndsWalk(m, pat, k + 1, f, b - 1) IN [y |-> <<m[b]>> \o r.y, n |-> r.n]
+       ELSE LET r == EndsWalk(m, pat, k + 1, f, b) IN [y |-> <<<<>>>> \o r.y, n |-> r.n]
+IterEnds(m, pat) == EndsWalk(m, pat, 1, 0, Len(m))
+
 \* Layout facts of C19: the stride (in elements of sz bytes) is at least the
 \* column count and a whole number of alignment units, every row starts on an
 \* A-byte boundary and consecutive rows are one stride apart.
@@ -48,6 +61,8 @@ DenseStep(st, o, C, K) ==
     [] o.op = "fill"          -> [st |-> [st EXCEPT ![o.tgt] = ConstRows(C, Len(m), o.v)], obs |-> Len(m)]
     [] o.op = "from_rows"     -> [st |-> [st EXCEPT ![o.tgt] = o.rows], obs |-> Len(o.rows)]
     [] o.op = "clone_to_other"-> [st |-> [st EXCEPT ![Other(o.tgt)] = m], obs |-> Len(m)]
+    [] o.op = "clone_from"    -> [st |-> [st EXCEPT ![Other(o.tgt)] = m], obs |-> Len(m)]   \* other.clone_from(&m): reuses other's storage
+    [] o.op = "iter_ends"     -> [st |-> st, obs |-> IterEnds(m, o.pat)]                     \* iter() or iter_mut() (o.mutable), no writes
     [] o.op = "iter_mut_bump" -> [st |-> [st EXCEPT ![o.tgt] = Bump(m, K)], obs |-> Len(m)]
     [] o.op = "iter"          -> [st |-> st, obs |-> m]
     [] o.op = "iter_rev"      -> [st |-> st, obs |-> Reversed(m)]
